@@ -322,6 +322,14 @@ func Send(method, rawurl string, options ...SendOption) (*http.Response, error) 
 	if err != nil {
 		return nil, err
 	}
+	// Remember where the body starts so that every further attempt (http
+	// fallback, retries) can send the complete original body again.
+	bodyStart := int64(-1)
+	if s, ok := opts.body.(io.Seeker); ok {
+		if pos, err := s.Seek(0, io.SeekCurrent); err == nil {
+			bodyStart = pos
+		}
+	}
 
 	client := &http.Client{
 		Timeout:       opts.timeout,
@@ -337,7 +345,7 @@ func Send(method, rawurl string, options ...SendOption) (*http.Response, error) 
 		// TODO (@evelynl): disable retry after tls migration.
 		if err != nil && req.URL.Scheme == "https" && !opts.httpFallbackDisabled {
 			originalErr := err
-			resp, err = fallbackToHTTP(client, method, opts)
+			resp, err = fallbackToHTTP(client, req, opts, bodyStart)
 			if err != nil {
 				// Sometimes the request fails for a reason unrelated to https.
 				// To keep this reason visible, we always include the original
@@ -353,6 +361,9 @@ func Send(method, rawurl string, options ...SendOption) (*http.Response, error) 
 			d := opts.retry.backoff.NextBackOff()
 			if d == backoff.Stop {
 				break // Backoff timed out.
+			}
+			if !rewindBody(req, opts, bodyStart) {
+				break // The body cannot be replayed: report this attempt's outcome.
 			}
 			time.Sleep(d)
 			continue
@@ -475,13 +486,38 @@ func newRequest(method string, opts *sendOptions) (*http.Request, error) {
 }
 
 func fallbackToHTTP(
-	client *http.Client, method string, opts *sendOptions,
+	client *http.Client, orig *http.Request, opts *sendOptions, bodyStart int64,
 ) (*http.Response, error) {
-	req, err := newRequest(method, opts)
-	if err != nil {
-		return nil, err
-	}
+	req := orig.Clone(orig.Context())
 	req.URL.Scheme = "http"
-
+	if !rewindBody(req, opts, bodyStart) {
+		return nil, errors.New("request body cannot be replayed")
+	}
 	return client.Do(req)
+}
+
+// rewindBody makes req carry the complete original body again after a previous
+// attempt consumed it. Returns false if the body cannot be replayed.
+func rewindBody(req *http.Request, opts *sendOptions, bodyStart int64) bool {
+	if opts.body == nil {
+		return true
+	}
+	if req.GetBody != nil {
+		// Set by http.NewRequest for *bytes.Buffer, *bytes.Reader and
+		// *strings.Reader: a fresh reader over the original bytes.
+		b, err := req.GetBody()
+		if err != nil {
+			return false
+		}
+		req.Body = b
+		return true
+	}
+	if s, ok := opts.body.(io.Seeker); ok && bodyStart >= 0 {
+		if _, err := s.Seek(bodyStart, io.SeekStart); err != nil {
+			return false
+		}
+		req.Body = io.NopCloser(opts.body)
+		return true
+	}
+	return false
 }
